@@ -123,6 +123,9 @@ pub fn run_sched(case: &Case, idle_check: bool) -> SchedOut {
                     .insert_source(source, move |(), _, disp: &mut u32| {
                         let t = sched::tick();
                         rec2.lock().unwrap().push(Rec::Cb { t, disp: *disp });
+                        // a scheduling point inside the callback: pings and handle drops may land between the drain and
+                        // the end of the source's event processing
+                        sched::harness_yield();
                     })
                     .expect("insert ping");
                 let handles: Vec<Ping> = (0..n_actors).map(|_| ping.clone()).collect();
